@@ -46,6 +46,10 @@ def correspond(ctx):
     n = 1500 if ctx.thorough() else 200
     c = vlib.correspond(ctx, 'c20', 'C20', ['episodes=%d' % n], timeout=1500)
     c['name'] = 'executors-vs-model'
+    if c.get('bad_op', 0) > 0:
+        # both sides rejecting a generated line is a broken tie (generator/driver mismatch), not agreement
+        c['ok'] = False
+        c.setdefault('errors', []).append('%d generated op lines were answered bad-op' % c['bad_op'])
     return [c]
 
 
@@ -69,8 +73,8 @@ def search(ctx, hints):
     import shutil
     shutil.rmtree(cwd, ignore_errors=True)
     if rc != 0:
+        # keep what was found before the searcher died / timed out
         res['error'] = 'searcher exited %d: %s' % (rc, (se or so)[-800:])
-        return res
     seen = set()
     try:
         for l in open(ops, errors='replace'):
@@ -78,11 +82,14 @@ def search(ctx, hints):
     except OSError:
         pass
     res['distinct_nontrivial'] = len(seen)
+    bykey = {}
     for line in so.split('\n'):
         if line.startswith('VIOL '):
+            # the searcher prints a violation when it finds it and again whenever it finds a better witness
+            # for the same class: the last line per key is the best one
             v = json.loads(line[5:])
-            res['violations'].append(dict(key=v['key'], desc=v['desc'],
-                                          replay=dict(script=v['script'], how='harness/bin/c20 script=<file with these lines>')))
+            bykey[v['key']] = dict(key=v['key'], desc=v['desc'],
+                                   replay=dict(script=v['script'], how='harness/bin/c20 script=<file with these lines>'))
         elif line.startswith('NOTE '):
             v = json.loads(line[5:])
             res.setdefault('outside_hypothesis', []).append(dict(key=v['key'], desc=v['desc'][:400], script_tail=v['script'][-3:]))
@@ -95,6 +102,7 @@ def search(ctx, hints):
                 res['stats'] = json.loads(line[6:])
             except Exception:
                 pass
+    res['violations'] = [bykey[k] for k in sorted(bykey)]
     res['samples'] = [dict(key=v['key'], desc=v['desc'][:300]) for v in res['violations'][:4]]
     return res
 
